@@ -20,7 +20,7 @@ usage
 
 A case (spec/Setup.tla; JSON, sets as lists):
   id, type "case", api "compiler" | "evaluator",
-  structure "flat" | "group" | "nested" | "multistage",
+  structure "flat" | "group" | "nested" | "iterated" | "multistage",
   arrays   [{name, props [..], consts [..]}]   props = ALL names, consts the
                                                ones that are constants
   eqs      [{name, dest, sources [..], d [..], s [..], syms [..],
@@ -54,6 +54,8 @@ Environment C20_MODE (self-tests of the check; this process only):
            repair (PATCH_*) replaces the module
   nocheck  check_equation_array_properties does nothing      (seeded defect)
   noname   its error message does not name the equation      (seeded defect)
+  dedup    an equation whose class and dest were checked before is skipped
+  laststepper  only the last-given stepper's properties are checked
 """
 import ast
 import importlib
@@ -111,6 +113,9 @@ from compyle.config import get_config
 def patched_source():
     import pysph.sph.acceleration_eval as m
     src = open(m.__file__).read()
+    if 'todo = [x for x in getfullargspec(equation.loop).args' in src:
+        raise SystemExit('C20 patch: the repair is already in %s'
+                         % m.__file__)
     for old, new in ((PATCH_OLD, PATCH_NEW),
                      (PATCH_IMPORT_OLD, PATCH_IMPORT_NEW)):
         if src.count(old) != 1:
@@ -156,6 +161,29 @@ def install_hooks(workdir):
             except RuntimeError as ex:
                 raise RuntimeError(str(ex).replace(eq.name, 'an equation'))
         m.check_equation_array_properties = check
+    elif mode == 'dedup':
+        # seeded defect: an equation whose class and dest were already
+        # checked is not checked again
+        import pysph.sph.acceleration_eval as m
+        orig = m.check_equation_array_properties
+        seen = set()
+
+        def check(eq, arrays):
+            key = (eq.__class__.__name__, eq.dest, id(arrays))
+            if key not in seen:
+                seen.add(key)
+                orig(eq, arrays)
+        m.check_equation_array_properties = check
+    elif mode == 'laststepper':
+        # seeded defect: only the stepper given last has its properties
+        # checked
+        import pysph.sph.integrator_cython_helper as m
+        orig = m.IntegratorCythonHelper._check_arrays_for_properties
+
+        def check(self, dest, args):
+            if dest == list(self.object.steppers)[-1]:
+                orig(self, dest, args)
+        m.IntegratorCythonHelper._check_arrays_for_properties = check
     elif mode:
         raise SystemExit('unknown C20_MODE %r' % mode)
 
@@ -334,6 +362,9 @@ def wrap(eqs, structure):
         return [Group(equations=[e]) for e in eqs]
     if structure == 'nested':
         return [Group(equations=[Group(equations=[e]) for e in eqs])]
+    if structure == 'iterated':
+        return [Group(equations=[Group(equations=[e]) for e in eqs],
+                      iterate=True, min_iterations=1, max_iterations=2)]
     if structure == 'multistage':
         return MultiStageEquations(
             [[e] if i % 2 == 0 else [Group(equations=[e])]
